@@ -74,4 +74,24 @@ theorem verify_fft_dtype_possible_eq (dt : DType) (lens : List Nat) :
     funext n; simp only [is_power_of_two, isPow2]
   rw [this]; rfl
 
+
+/-! ### phase 3: re-implementations, purity of the anchored functions, call sites -/
+
+/-- `direct/data/fake.py: fft` is the centred orthonormal plan, every stage over the same two axes -/
+theorem reimpl_fake_fft_ok : reimpl_fake_fft.ok = true ∧ reimpl_fake_fft.inverse = false := by decide
+theorem reimpl_fake_ifft_ok : reimpl_fake_ifft.ok = true ∧ reimpl_fake_ifft.inverse = true := by decide
+/-- `SheppLoganDataset.fft` (repaired: `ifftshift → fft2 → fftshift`, all over axes (1, 2)) -/
+theorem reimpl_shepp_fft_ok : reimpl_shepp_fft.ok = true ∧ reimpl_shepp_fft.inverse = false := by decide
+
+/-- no function of the mechanism keeps state across calls, updates an argument in place, has a mutable default or a
+decorator, or returns early (except `roll_one_dim`'s `if shift == 0: return data`, which the model has) -/
+theorem transforms_pure : fn_facts.all FnFacts.pure = true := by decide
+theorem transforms_all_listed :
+    fn_facts.map (·.fn) = [.fft2, .ifft2, .roll, .rollOneDim, .fftshift, .ifftshift, .verifyDtype, .viewAsComplex, .viewAsReal] := by
+  decide
+
+/-- every call site under `direct/` passes `dim` in a form that denotes distinct non-negative axis pairs / triples and
+overrides only the three modelled flags with Boolean constants -/
+theorem call_sites_ok : call_sites.all CallSite.ok = true := by decide
+
 end DirectVerif.Bridge.C01
